@@ -1,7 +1,6 @@
 (* C01 proofs, part 1: constructors, negation, add / sub / mul / fused families.
    Every overload body of Model.v equals the Z operation for ALL big-integer operands and ALL word
-   operands in the C type's range.  The two bodies that are wrong in the tree are refuted by a witness,
-   and their repaired versions are proved exact. *)
+   operands in the C type's range. *)
 From Coq Require Import ZArith Bool Lia.
 From C01 Require Import Model.
 Local Open Scope Z_scope.
@@ -13,9 +12,9 @@ Create HintDb c01.
   ctor_i32 ctor_u8 ctor_u32 ctor_i64 ctor_u64 ctor_copy logcpy assign copy isZero_I isZero_i64 isZero_u64
   neg negin opNeg Integer_zero
   addin_I addin_i64 addin_u64 addin_i32 addin_u32 add_I add_i64 add_u64 add_i32 add_u32
-  opPlusEq_I opPlusEq_u64 opPlusEq_i64 opPlusEq_u32 opPlusEq_i32 opPlusEq_i32_fixed opPlusEq_T
+  opPlusEq_I opPlusEq_u64 opPlusEq_i64 opPlusEq_u32 opPlusEq_i32 opPlusEq_T
   opPlus_I opPlus_u64 opPlus_i64 opPlus_u32 opPlus_i32 fr_plus_i32 fr_plus_u32 fr_plus_i64 fr_plus_u64 preinc postinc
-  subin_I subin_i64 subin_u64 subin_i32 subin_u32 sub_I sub_i64 sub_u64 sub_i32 sub_i32_fixed sub_u32
+  subin_I subin_i64 subin_u64 subin_i32 subin_u32 sub_I sub_i64 sub_u64 sub_i32 sub_u32
   opMinusEq_I opMinusEq_u64 opMinusEq_i64 opMinusEq_u32 opMinusEq_i32 opMinusEq_T
   opMinus_I opMinus_u64 opMinus_i64 opMinus_u32 opMinus_i32 fr_minus_i32 fr_minus_u32 fr_minus_i64 fr_minus_u64 predec postdec
   mulin_I mulin_i64 mulin_u64 mulin_i32 mulin_u32 mul_I mul_i64 mul_u64 mul_i32 mul_u32
@@ -36,7 +35,10 @@ Ltac split_ifs :=
   | |- context[?a =? ?b] => destruct (Z.eqb_spec a b)
   | |- context[?a <? ?b] => destruct (Z.ltb_spec a b)
   | |- context[?a <=? ?b] => destruct (Z.leb_spec a b)
-  end; cbn [orb andb negb].
+  | H : context[?a =? ?b] |- _ => destruct (Z.eqb_spec a b)
+  | H : context[?a <? ?b] |- _ => destruct (Z.ltb_spec a b)
+  | H : context[?a <=? ?b] |- _ => destruct (Z.leb_spec a b)
+  end; cbn [orb andb negb] in *.
 
 Ltac c01_unfold := repeat autounfold with c01 in *; repeat autounfold with gmpspec in *; repeat autounfold with cint in *; cbv beta zeta in *.
 Ltac c01_solve := intros; c01_unfold; split_ifs; try lia; try nia.
@@ -83,16 +85,7 @@ Lemma fr_plus_u64_ok l n : in_u64 l -> fr_plus_u64 l n = l + n. Proof. c01_solve
 Lemma preinc_ok x : preinc x = x + 1. Proof. c01_solve. Qed.
 Lemma postinc_ok x : postinc x = (x, x + 1). Proof. unfold postinc. rewrite preinc_ok. reflexivity. Qed.
 
-(* operator+=(int32_t): the statement that SHOULD hold, its refutation for the body in the tree,
-   the exact description of what the body computes, and exactness of the repaired body *)
-Definition OpPlusEq_i32_exact : Prop := forall x n, in_i32 n -> opPlusEq_i32 x n = x + n.
-Lemma opPlusEq_i32_refuted : exists x n, in_i32 n /\ opPlusEq_i32 x n <> x + n.
-Proof. exists 10, (-3). split; [unfold in_i32, H32; lia | vm_compute; discriminate]. Qed.
-Lemma opPlusEq_i32_nonneg_ok x n : 0 <= n < H32 -> opPlusEq_i32 x n = x + n.
-Proof. c01_solve. Qed.
-Lemma opPlusEq_i32_neg_off_by_2_64 x n : - H32 <= n < 0 -> opPlusEq_i32 x n = x + n + W64.
-Proof. c01_solve. Qed.
-Lemma opPlusEq_i32_fixed_ok x n : in_i32 n -> opPlusEq_i32_fixed x n = x + n. Proof. c01_solve. Qed.
+Lemma opPlusEq_i32_ok x n : in_i32 n -> opPlusEq_i32 x n = x + n. Proof. c01_solve. Qed.
 
 Definition Add_family_exact : Prop :=
   (forall x n, addin_I x n = x + n) /\
@@ -110,7 +103,7 @@ Definition Add_family_exact : Prop :=
   (forall l n, in_i32 l -> fr_plus_i32 l n = l + n) /\ (forall l n, in_u32 l -> fr_plus_u32 l n = l + n) /\
   (forall l n, in_i64 l -> fr_plus_i64 l n = l + n) /\ (forall l n, in_u64 l -> fr_plus_u64 l n = l + n) /\
   (forall x, preinc x = x + 1) /\ (forall x, postinc x = (x, x + 1)) /\
-  (forall x n, in_i32 n -> opPlusEq_i32_fixed x n = x + n).
+  (forall x n, in_i32 n -> opPlusEq_i32 x n = x + n).
 Lemma add_family_exact : Add_family_exact.
 Proof.
   repeat split; intros;
@@ -119,7 +112,7 @@ Proof.
         | apply opPlusEq_I_ok | apply opPlusEq_u64_ok | apply opPlusEq_i64_ok | apply opPlusEq_u32_ok | apply opPlusEq_T_ok
         | apply opPlus_I_ok | apply opPlus_u64_ok | apply opPlus_i64_ok | apply opPlus_u32_ok | apply opPlus_i32_ok
         | apply fr_plus_i32_ok | apply fr_plus_u32_ok | apply fr_plus_i64_ok | apply fr_plus_u64_ok
-        | apply preinc_ok | apply postinc_ok | apply opPlusEq_i32_fixed_ok ]; assumption.
+        | apply preinc_ok | apply postinc_ok | apply opPlusEq_i32_ok ]; try assumption.
 Qed.
 
 (* all addition call forms agree on their common domain (n a value every word type can carry) *)
@@ -136,7 +129,7 @@ Proof.
   assert (in_i32 n) by (unfold in_i32, H32 in *; lia). assert (in_u32 n) by (unfold in_u32, W32, H32 in *; lia).
   assert (in_i64 n) by (unfold in_i64, H64, H32 in *; lia). assert (in_u64 n) by (unfold in_u64, W64, H32 in *; lia).
   rewrite addin_I_ok, addin_i64_ok, addin_u64_ok, addin_i32_ok, addin_u32_ok, add_I_ok, add_i64_ok, add_u64_ok, add_i32_ok,
-    add_u32_ok, opPlusEq_I_ok, opPlusEq_u64_ok, opPlusEq_i64_ok, opPlusEq_u32_ok, opPlusEq_i32_nonneg_ok, opPlus_I_ok, opPlus_u64_ok,
+    add_u32_ok, opPlusEq_I_ok, opPlusEq_u64_ok, opPlusEq_i64_ok, opPlusEq_u32_ok, opPlusEq_i32_ok, opPlus_I_ok, opPlus_u64_ok,
     opPlus_i64_ok, opPlus_u32_ok, opPlus_i32_ok, fr_plus_i32_ok, fr_plus_u32_ok, fr_plus_i64_ok, fr_plus_u64_ok by assumption.
   repeat split; lia.
 Qed.
@@ -169,12 +162,7 @@ Lemma fr_minus_u64_ok l n : in_u64 l -> fr_minus_u64 l n = l - n. Proof. c01_sol
 Lemma predec_ok x : predec x = x - 1. Proof. c01_solve. Qed.
 Lemma postdec_ok x : postdec x = (x, x - 1). Proof. unfold postdec. rewrite predec_ok. reflexivity. Qed.
 
-Definition Sub_i32_exact : Prop := forall x n, in_i32 n -> sub_i32 x n = x - n.
-Lemma sub_i32_refuted : exists x n, in_i32 n /\ sub_i32 x n <> x - n.
-Proof. exists 10, (-3). split; [unfold in_i32, H32; lia | vm_compute; discriminate]. Qed.
-Lemma sub_i32_nonneg_ok x n : 0 <= n < H32 -> sub_i32 x n = x - n. Proof. c01_solve. Qed.
-Lemma sub_i32_neg_off_by_2_64 x n : - H32 <= n < 0 -> sub_i32 x n = x - n - W64. Proof. c01_solve. Qed.
-Lemma sub_i32_fixed_ok x n : in_i32 n -> sub_i32_fixed x n = x - n. Proof. c01_solve. Qed.
+Lemma sub_i32_ok x n : in_i32 n -> sub_i32 x n = x - n. Proof. c01_solve. Qed.
 
 Definition Sub_family_exact : Prop :=
   (forall x n, subin_I x n = x - n) /\
@@ -193,7 +181,7 @@ Definition Sub_family_exact : Prop :=
   (forall l n, in_i32 l -> fr_minus_i32 l n = l - n) /\ (forall l n, in_u32 l -> fr_minus_u32 l n = l - n) /\
   (forall l n, in_i64 l -> fr_minus_i64 l n = l - n) /\ (forall l n, in_u64 l -> fr_minus_u64 l n = l - n) /\
   (forall x, predec x = x - 1) /\ (forall x, postdec x = (x, x - 1)) /\
-  (forall x n, in_i32 n -> sub_i32_fixed x n = x - n).
+  (forall x n, in_i32 n -> sub_i32 x n = x - n).
 Lemma sub_family_exact : Sub_family_exact.
 Proof.
   repeat split; intros;
@@ -202,7 +190,7 @@ Proof.
         | apply opMinusEq_I_ok | apply opMinusEq_u64_ok | apply opMinusEq_i64_ok | apply opMinusEq_u32_ok | apply opMinusEq_i32_ok
         | apply opMinusEq_T_ok | apply opMinus_I_ok | apply opMinus_u64_ok | apply opMinus_i64_ok | apply opMinus_u32_ok
         | apply opMinus_i32_ok | apply fr_minus_i32_ok | apply fr_minus_u32_ok | apply fr_minus_i64_ok | apply fr_minus_u64_ok
-        | apply predec_ok | apply postdec_ok | apply sub_i32_fixed_ok ]; assumption.
+        | apply predec_ok | apply postdec_ok | apply sub_i32_ok ]; try assumption.
 Qed.
 
 Definition Sub_family_agree : Prop := forall x n, 0 <= n < H32 ->
@@ -217,7 +205,7 @@ Proof.
   intros x n Hn r; subst r.
   assert (in_i32 n) by (unfold in_i32, H32 in *; lia). assert (in_u32 n) by (unfold in_u32, W32, H32 in *; lia).
   assert (in_i64 n) by (unfold in_i64, H64, H32 in *; lia). assert (in_u64 n) by (unfold in_u64, W64, H32 in *; lia).
-  rewrite subin_I_ok, subin_i64_ok, subin_u64_ok, subin_i32_ok, subin_u32_ok, sub_I_ok, sub_i64_ok, sub_u64_ok, sub_i32_nonneg_ok,
+  rewrite subin_I_ok, subin_i64_ok, subin_u64_ok, subin_i32_ok, subin_u32_ok, sub_I_ok, sub_i64_ok, sub_u64_ok, sub_i32_ok,
     sub_u32_ok, opMinusEq_I_ok, opMinusEq_u64_ok, opMinusEq_i64_ok, opMinusEq_u32_ok, opMinusEq_i32_ok, opMinus_I_ok, opMinus_u64_ok,
     opMinus_i64_ok, opMinus_u32_ok, opMinus_i32_ok, fr_minus_i32_ok, fr_minus_u32_ok, fr_minus_i64_ok, fr_minus_u64_ok by assumption.
   repeat split; lia.
@@ -273,7 +261,7 @@ Proof.
         | apply mul_I_ok | apply mul_i64_ok | apply mul_u64_ok | apply mul_i32_ok | apply mul_u32_ok
         | apply opMulEq_I_ok | apply opMulEq_u64_ok | apply opMulEq_i64_ok | apply opMulEq_u32_ok | apply opMulEq_i32_ok
         | apply opMulEq_T_ok | apply opMul_I_ok | apply opMul_u64_ok | apply opMul_i64_ok | apply opMul_u32_ok | apply opMul_i32_ok
-        | apply fr_mul_i32_ok | apply fr_mul_u32_ok | apply fr_mul_i64_ok | apply fr_mul_u64_ok ]; assumption.
+        | apply fr_mul_i32_ok | apply fr_mul_u32_ok | apply fr_mul_i64_ok | apply fr_mul_u64_ok ]; try assumption.
 Qed.
 
 Definition Mul_family_agree : Prop := forall x n, 0 <= n < H32 ->
